@@ -76,13 +76,28 @@ class Int:
 
 
 class Agg:
-    __slots__ = ('items',)
+    __slots__ = ('items', 'kind')
 
-    def __init__(self, items):
+    def __init__(self, items, kind=None):
         self.items = list(items)
+        self.kind = kind        # (adt path, variant name) for ADT aggregates
 
     def __repr__(self):
+        if self.kind:
+            return '%s::%s%r' % (self.kind[0].rsplit('::', 1)[-1], self.kind[1], self.items)
         return 'Agg(%r)' % (self.items,)
+
+
+class KBits:
+    """A byte/integer of which only some bits are known (known-bits domain)."""
+    __slots__ = ('mask', 'val')
+
+    def __init__(self, mask, val):
+        self.mask = mask          # 1 = bit known
+        self.val = val & mask
+
+    def __repr__(self):
+        return 'KBits(mask=%#x,val=%#x)' % (self.mask, self.val)
 
 
 class RangeIt:
@@ -121,6 +136,31 @@ class Ref:
 
     def __init__(self, root, proj):
         self.root, self.proj = root, proj
+
+
+def kbits_binop(op, a, b):
+    """Known-bits transfer for BitAnd / BitOr / Eq / Ne with a constant."""
+    if isinstance(a, Int) and isinstance(b, KBits):
+        a, b = b, a
+        if op in ('Lt', 'Le', 'Gt', 'Ge', 'Shl', 'Shr', 'Sub'):
+            return None
+    if not (isinstance(a, KBits) and isinstance(b, Int)):
+        return None
+    if op == 'BitAnd':
+        # bits where the constant is 0 become known 0
+        mask = a.mask | (~b.v & 0xff)
+        val = (a.val & b.v)
+        return KBits(mask & 0xff, val) if (mask & 0xff) != 0xff else Int(val & 0xff)
+    if op == 'BitOr':
+        mask = a.mask | b.v
+        val = a.val | b.v
+        return KBits(mask & 0xff, val) if (mask & 0xff) != 0xff else Int(val & 0xff)
+    if op in ('Eq', 'Ne'):
+        # differs from the constant on a known bit -> decided
+        if (a.val ^ b.v) & a.mask:
+            return Int(0 if op == 'Eq' else 1)
+        return None
+    return None
 
 
 class Budget(Exception):
@@ -294,7 +334,7 @@ class Frame:
         while len(items) <= idx:
             items.append(TOP)
         items[idx] = self._update(items[idx], proj[1:], val)
-        return Agg(items)
+        return Agg(items, cur.kind)
 
     def operand(self, op):
         p = op_place(op)
@@ -437,6 +477,14 @@ class Interp:
                 results.append((pth, fr.store.get(0, TOP), out))
                 return
             elif k == 'assert':
+                cv = fr.operand(t['cond'])
+                if isinstance(cv, Int):
+                    if bool(cv.v) != bool(t['expected']):
+                        pth.events.append(('assert-fails', t['msg'], t['span']))
+                        results.append((pth, ('diverges', t['span']), {}))
+                        return
+                else:
+                    pth.events.append(('assert-undecided', t['msg'], t['span']))
                 bb = t['target']
             elif k == 'drop':
                 bb = t['target']
@@ -525,7 +573,7 @@ class Interp:
                 else:
                     fr.storev(dst, Opt('none', TOP))
                 return
-            fr.storev(dst, Agg(vals))
+            fr.storev(dst, Agg(vals, (kind['adt'], kind['variant_name']) if 'adt' in kind else None))
         elif k == 'repeat':
             n = rv['n']
             v = fr.operand(rv['op'])
@@ -537,6 +585,12 @@ class Interp:
             a = fr.operand(rv['a'])
             b = fr.operand(rv['b'])
             op = rv['op']
+            if op.endswith('WithOverflow') and isinstance(a, Int) and isinstance(b, Int):
+                base = op[:-len('WithOverflow')]
+                r = {'Add': a.v + b.v, 'Sub': a.v - b.v, 'Mul': a.v * b.v}.get(base)
+                if r is not None:
+                    fr.storev(dst, Agg([Int(r & ((1 << 64) - 1)), Int(int(r < 0 or r >= (1 << 64)), 1)]))
+                    return
             if isinstance(a, Int) and isinstance(b, Int):
                 bits = 64
                 mask = (1 << 64) - 1
@@ -576,7 +630,17 @@ class Interp:
                 if r is not None:
                     fr.storev(dst, Int(r))
                     return
-            fr.storev(dst, TOP)
+            if op in ('BitXor', 'Ne') and isinstance(a, tuple) and a and a[0] == 'bool' and isinstance(b, Int):
+                fr.storev(dst, a if b.v == 0 else ('bool', ('not', a[1])))
+                return
+            if op in ('BitXor', 'Ne') and isinstance(b, tuple) and b and b[0] == 'bool' and isinstance(a, Int):
+                fr.storev(dst, b if a.v == 0 else ('bool', ('not', b[1])))
+                return
+            if op == 'Eq' and isinstance(a, tuple) and a and a[0] == 'bool' and isinstance(b, Int):
+                fr.storev(dst, a if b.v == 1 else ('bool', ('not', a[1])))
+                return
+            kb = kbits_binop(op, a, b)
+            fr.storev(dst, kb if kb is not None else TOP)
         elif k == 'unop':
             a = fr.operand(rv['a'])
             if isinstance(a, Int) and rv['op'] == 'Not':
